@@ -44,7 +44,7 @@ def _c05(tier, seed):
 def _c07(tier, seed):
     ps = families.c07(tier, seed) + families.wide("C07")
     ps = ps + families.uniform_twins(ps, 2 if tier == "quick" else 1) + families.adv_twins(ps, 4 if tier == "quick" else 2)
-    ps = ps + families.own_placements("C07", ps) + families.bound_twins(ps)
+    ps = ps + families.own_placements("C07", ps) + families.bound_twins(ps) + families.bound_twins([p for p in ps if p.s("clone", "copy")], limit=5, suffix="c")
     return ps + families.canaries_clone(ps)
 
 
